@@ -58,10 +58,15 @@ EmptyCh(gcur, tcur) ==
     [objs |-> <<>>, links |-> [r \in Res |-> <<>>], ia |-> <<>>, iu |-> <<>>, id |-> <<>>,
      gcur |-> gcur, gnew |-> 0, tcur |-> tcur, tnew |-> 0, full |-> FALSE]
 
+(* the data a deleted global / tcp ConfigMap delivers: empty, not "no new data" (0) -- otherwise its last content would
+   stay in use although a freshly started controller finds nothing (finding F34) *)
+Empty == 9
+DataOf(e) == IF e.op = "del" THEN Empty ELSE e.v
+
 (* add / upd / del of the handler of e.res *)
 Apply(c, e) ==
-    CASE e.res = "ConfigMap" /\ e.op # "del" /\ e.name \in {GlobalCM, TCPCM} ->
-            IF e.name = GlobalCM THEN [c EXCEPT !.gnew = e.v] ELSE [c EXCEPT !.tnew = e.v]
+    CASE e.res = "ConfigMap" /\ e.name \in {GlobalCM, TCPCM} ->
+            IF e.name = GlobalCM THEN [c EXCEPT !.gnew = DataOf(e)] ELSE [c EXCEPT !.tnew = DataOf(e)]
       [] e.res = "Ingress" /\ e.op = "add" -> [c EXCEPT !.ia = Append(@, e.name)]
       [] e.res = "Ingress" /\ e.op = "del" -> [c EXCEPT !.id = Append(@, e.name)]
       [] e.res = "Ingress" /\ e.op = "update" ->
@@ -135,10 +140,10 @@ Names(s) == [i \in 1..Len(s) |-> s[i].name]
 (* the change description: ingresses moving in / out of the class are adds / deletes; ConfigMap data *)
 Described(b, w) ==
     /\ b.ia = Names(IngSel(w, "add")) /\ b.iu = Names(IngSel(w, "upd")) /\ b.id = Names(IngSel(w, "del"))
-    /\ LET g == SelectSeq(w, LAMBDA e : e.res = "ConfigMap" /\ e.name = GlobalCM /\ e.op # "del")
-           t == SelectSeq(w, LAMBDA e : e.res = "ConfigMap" /\ e.name = TCPCM /\ e.op # "del") IN
-       /\ b.gnew = IF g = <<>> THEN 0 ELSE g[Len(g)].v
-       /\ b.tnew = IF t = <<>> THEN 0 ELSE t[Len(t)].v
+    /\ LET g == SelectSeq(w, LAMBDA e : e.res = "ConfigMap" /\ e.name = GlobalCM)
+           t == SelectSeq(w, LAMBDA e : e.res = "ConfigMap" /\ e.name = TCPCM) IN
+       /\ b.gnew = IF g = <<>> THEN 0 ELSE DataOf(g[Len(g)])
+       /\ b.tnew = IF t = <<>> THEN 0 ELSE DataOf(t[Len(t)])
 
 (* each batch sees the previously delivered data as current *)
 LastNew(bs, k, fnew) ==
